@@ -141,6 +141,15 @@ func (f *Frame) findLoops() {
 		if f.fc != nil && best >= 0 {
 			li.lc = f.fc.Loops[best+1]
 		}
+		if f.fc != nil && len(f.fc.LoopInvs) > 0 {
+			// default invariants from templates apply to every loop
+			nlc := &LoopContract{Ordinal: best + 1}
+			if li.lc != nil {
+				*nlc = *li.lc
+			}
+			nlc.Invariants = append(append([]*Clause{}, f.fc.LoopInvs...), nlc.Invariants...)
+			li.lc = nlc
+		}
 	}
 	// modified sets
 	e := f.c.eng
@@ -228,6 +237,18 @@ func (f *Frame) calleeModKeys(com *ssa.CallCommon) []string {
 			}
 		}
 	} else {
+		// a call through a function-typed parameter bound to a contract: the contract's modifies clause decides
+		if ks, ok := f.fnParamModKeys(com.Value); ok {
+			for _, k := range ks {
+				set[k] = true
+			}
+			var out []string
+			for k := range set {
+				out = append(out, k)
+			}
+			sort.Strings(out)
+			return out
+		}
 		switch v := com.Value.(type) {
 		case *ssa.MakeClosure:
 			if g, ok := v.Fn.(*ssa.Function); ok {
@@ -1308,4 +1329,48 @@ func (f *Frame) expandJoin(b *ssa.BasicBlock) []predEdge {
 		}
 	}
 	return out
+}
+
+// fnParamModKeys: heap keys a call through a contracted function parameter may modify, read off the
+// contract's modifies clauses (spec functions returning a map, e.g. RegMap(self)).
+func (f *Frame) fnParamModKeys(v ssa.Value) ([]string, bool) {
+	if f.fc == nil {
+		return nil, false
+	}
+	name := ""
+	switch p := v.(type) {
+	case *ssa.UnOp:
+		if a, ok := p.X.(*ssa.Alloc); ok {
+			name = a.Comment
+		}
+	case *ssa.Parameter:
+		name = p.Name()
+	}
+	k, ok := f.fc.FnParams[name]
+	if !ok {
+		return nil, false
+	}
+	kfc := f.c.eng.cs.Funcs[k]
+	if kfc == nil {
+		return nil, false
+	}
+	var out []string
+	for _, cl := range kfc.Modifies {
+		for _, e := range cl.Exprs {
+			if e.Op == "call" {
+				if sf, ok := f.c.eng.cs.Specs[e.Name]; ok {
+					_, gt := f.c.eng.resolveType(sf.Pkg, sf.Result)
+					if gt != nil {
+						if m, ok := gt.Underlying().(*types.Map); ok {
+							a, b, c := f.c.eng.mapKeys(m)
+							out = append(out, a, b, c)
+							continue
+						}
+					}
+				}
+			}
+			return nil, false
+		}
+	}
+	return out, true
 }
